@@ -69,7 +69,7 @@ TYPE_KINDS = ["opaque", "struct", "outstruct", "enum", "opaque_enum"]       # `#
 KINDS = ["type-disable", "method-disable", "impl-disable", "module-disable", "type-rename", "method-rename", "impl-rename", "module-rename", "trait-disable",
          # the same payload written as several attributes with different conditions (on one item, or on the impl block and on a method in it):
          # the item is affected where *any* of the conditions holds
-         "type-disable-split", "method-disable-split", "method-rename-split"]
+         "type-disable-split", "method-disable-split", "method-rename-split", "ctor-rename"]
 
 
 def probe_source(probes, with_attrs):
@@ -140,9 +140,16 @@ def probe_source(probes, with_attrs):
         if kind == "trait-disable":
             # a trait next to the probe type: declared (and generated) for the backends that support traits unless the condition disables it
             tr_decl = "%s    pub trait PT%d {\n        fn tm(&self, a: u8) -> u8;\n    }\n" % (("    #[diplomat::attr(%s, disable)]\n" % cond) if with_attrs else "", k)
-        body = (tr_decl + "%s%s%s    impl %s {\n        #[diplomat::demo(default_constructor)]\n"
+        c_attr = ""
+        if kind == "ctor-rename":
+            # a rename on a method that also carries an explicitly named constructor attribute (seed C13-i: the Dart formatter's constructor
+            # path applied the rename only to constructors without a name of their own). The constructor attribute is part of both sources.
+            c_attr = "        #[diplomat::attr(auto, named_constructor = \"built%d\")]\n" % k
+            if with_attrs:
+                c_attr += "        #[diplomat::attr(%s, rename = \"zzrn%dc\")]\n" % (cond, k)
+        body = (tr_decl + ("%s%s%s    impl %s {\n        #[diplomat::demo(default_constructor)]\n" + c_attr.replace("%", "%%") +
                 "        pub fn mk() -> %s\n%s        pub fn pa(%sw: &mut diplomat_runtime::DiplomatWrite) { }\n        pub fn pb(%s) -> u8 { 7 }\n    }\n"
-                % (t_attr, decl, i_attr, ty, mk, m_attr, slf, slf2))
+                ) % (t_attr, decl, i_attr, ty, mk, m_attr, slf, slf2))
         if kind.startswith("module"):
             mods.append("#[diplomat::bridge]\n%spub mod pm%d {\n%s}\n" % (mod_attr, k, body))
         else:
@@ -337,9 +344,10 @@ def main(tier, seed):
                     if not v and not (sym["pa"] and sym["pb"]):
                         bad("condition false but methods of %s are missing" % ty)
                 else:
-                    frag = "zzrn%d%s" % (k, {"type-rename": "t", "method-rename": "m", "impl-rename": "i", "module-rename": "q"}[kind])
+                    frag = "zzrn%d%s" % (k, {"type-rename": "t", "method-rename": "m", "impl-rename": "i", "module-rename": "q", "ctor-rename": "c"}[kind])
                     seen = has_fragment(ia, frag)
-                    if b in RENDERS_RENAME and v and not seen:
+                    # (demo_gen's own files receive the object as a parameter and never spell the constructor: nothing to render there)
+                    if b in RENDERS_RENAME and v and not seen and not (kind == "ctor-rename" and b == "demo_gen"):
                         bad("condition true but the rename %s... is not rendered" % frag)
                     if not v and seen:
                         bad("condition false but the rename %s... shows up" % frag)
